@@ -261,11 +261,28 @@ pub struct Flaky<'a> {
     calls: std::cell::Cell<u32>,
     first: &'a [u8],
     later: &'a [u8],
+    panics: bool,
 }
+
+/// Payload of the simulated caller's own panics (raised with `resume_unwind`, so no panic hook runs).
+pub struct CallerCrash;
 
 impl<'a> Flaky<'a> {
     pub fn new(first: &'a [u8], later: &'a [u8]) -> Self {
-        Self { calls: std::cell::Cell::new(0), first, later }
+        Self { calls: std::cell::Cell::new(0), first, later, panics: false }
+    }
+    /// A shard whose `as_ref()` panics the first time it is called (a bug in the caller's type, caught by the caller).
+    pub fn panicking(data: &'a [u8]) -> Self {
+        Self { calls: std::cell::Cell::new(0), first: data, later: data, panics: true }
+    }
+}
+
+/// Runs `f`; `None` if the simulated caller's panic came out of it (any other panic is passed on).
+pub fn catch_caller_crash<T>(f: impl FnOnce() -> T) -> Option<T> {
+    match std::panic::catch_unwind(std::panic::AssertUnwindSafe(f)) {
+        Ok(v) => Some(v),
+        Err(p) if p.is::<CallerCrash>() => None,
+        Err(p) => std::panic::resume_unwind(p),
     }
 }
 
@@ -273,6 +290,9 @@ impl AsRef<[u8]> for Flaky<'_> {
     fn as_ref(&self) -> &[u8] {
         let n = self.calls.get();
         self.calls.set(n + 1);
+        if n == 0 && self.panics {
+            std::panic::resume_unwind(Box::new(CallerCrash));
+        }
         if n == 0 {
             self.first
         } else {
